@@ -99,7 +99,7 @@ def sym_curve_set(m, ncurves, sameT=False, xb='weight'):
         Tc = V('T0', 333.15) if (sameT and c == 0) else V('Tc%d' % c, 313.15 + 20 * c)
         comps = []
         for j in range(2):
-            cc = pv.Composition(p=0.5, type=xb)
+            cc = pv.Composition(p=0.5, type=(xb if xb != 'mixed' else ('weight', 'molar')[j % 2]))   # 'mixed': every point its own basis
             cc.p = V('cx%d_%d' % (c, j), 0.2 + 0.3 * j)
             comps.append(cc)
         perms = [(sym_permeance('cp%d_%d_1' % (c, j), 0.03 + 0.01 * j)[0], sym_permeance('cp%d_%d_2' % (c, j), 0.0004)[0]) for j in range(2)]
@@ -152,6 +152,12 @@ def optnat(x):
 def cases():
     cs = []
     ns = (1, 2, 3) if THOROUGH else (1, 2)
+    # three-step bridges are proved by conversion of a term that grows with every step: measured 9 s / 0.6 GB (ideal
+    # isothermal), 37 s / 1.1 GB (non-ideal isothermal), but 500-700 s / 6-8 GB (ideal non-isothermal) and > 30 min / 10 GB
+    # (non-ideal non-isothermal).  The thorough tier therefore adds n = 3 for the isothermal loops only; the non-isothermal
+    # loops keep n <= 2 + the loop-shape lint + executed trajectories of up to 200 steps.
+    N3_IDEAL = {('iso', 'vac', 'weight', None), ('iso', 'temp', 'weight', None), ('iso', 'press', 'weight', None)}
+    N3_NONIDEAL = {(True, 'multi', False, 'weight', None), (True, 'single_other', False, 'weight', None)}
     # ---------------- ideal processes
     ideal_cfgs = []
     for kind in ('iso', 'noniso'):
@@ -171,6 +177,8 @@ def cases():
         for n in ns:
             for ct in ('NRTL', 'UNIQUAC'):
                 if ct == 'UNIQUAC' and not (mode == 'temp' and xb == 'weight' and prog is None):
+                    continue
+                if n == 3 and ((kind, mode, xb, prog) not in N3_IDEAL or ct != 'NRTL'):
                     continue
                 def run(kind=kind, mode=mode, xb=xb, prog=prog, n=n, ct=ct):
                     m, _ = sym_mixture()
@@ -234,6 +242,8 @@ def cases():
                                                  (False, 'single_other', False, 'weight', ('polynomial', 2))]
     for iso, curves, ip, xb, prog in ni_cfgs:
         for n in ns:
+            if n == 3 and (iso, curves, ip, xb, prog) not in N3_NONIDEAL:
+                continue
             mode = 'temp' if (iso and curves == 'multi') else 'vac'
             log = []
 
